@@ -198,19 +198,32 @@ CONFIG["C19"] = {
 }
 
 CONFIG["C07"] = {
-    "level": "exploration", "proof": False, "rtc": True, "rtc_timeout": 3000,
-    "explanation": "Bounded run-time contract on the real grid constructions: every N in the stated ranges (quick: ico 1..642, cube3D "
-                   "1..386 + level-4 sample, randomS 1..300, cube4D/randomQ 1..80, fulldiv 8/40, zero grids and names; thorough: complete "
-                   "to ico 2562 / cube3D 1538 / 4-D 272 / fulldiv 2080): N rows, unit norm, pairwise distinct, separation bounds, "
-                   "canonical half, no two rows the same rotation, [G;-G] layout bitwise, N=1 grids.",
-    "assumptions": ["for large N the Voronoi construction is skipped (point sets compared bitwise with the factory path on a sample)"],
+    "level": "other", "proof": True, "rtc": True, "rtc_timeout": 3000,
+    "explanation": "Proved (symbolic N): SphereGrid4Dim._gen_grid builds exactly [G; -G] (loop invariant: rows < N are the half grid, "
+                   "rows N..N+i-1 its exact negatives in the same order), find_inverse_quaternion is negation, q_in_upper_sphere "
+                   "returns true iff the first non-zero coordinate is positive and holds for exactly one of q, -q (coordinates exactly 0 "
+                   "or beyond the 1e-8 tolerance; 3 and 4 components). Bounded (the statement's quantifier is a finite set of concrete "
+                   "float arrays): every N in the stated ranges -- N rows, unit norm, pairwise distinct, separation bounds, canonical "
+                   "half, no two rows the same rotation, [G;-G] layout bitwise, N=1 grids.",
+    "trusted_base": [NUMPY, "np.allclose(v, 0) <=> every |v_k| <= 1e-8"],
+    "assumptions": ["a leading coordinate inside (0, 1e-8] is excluded by the contract's precondition and checked on the real grids by the "
+                    "bounded stage", "for large N the Voronoi construction is skipped in the bounded stage (point sets compared bitwise with "
+                    "the factory path on a sample)"],
 }
 CONFIG["C08"] = {
-    "level": "exploration", "proof": False, "rtc": True, "rtc_timeout": 3000,
-    "explanation": "Bounded run-time contract: bit-identity (sha256 of dtype/shape/bytes) of grids and all geometry getters across "
-                   "repeated construction, seeded random histories of other constructions / getter calls / reseeding of numpy's global "
-                   "generator, fresh interpreters with different PYTHONHASHSEED, and the prefix property over thousands of (N, M) pairs.",
-    "assumptions": ["determinism of Qhull/LAPACK across processes is exercised, not proved"],
+    "level": "other", "proof": True, "rtc": True, "rtc_timeout": 3000,
+    "explanation": "Proved (effect obligations decided on the AST of the real files, for every N and every history): each call that "
+                   "draws from numpy's global generator inside a method of the grid / polytope / Voronoi classes is dominated in the "
+                   "same function by np.random.seed(<integer literal>), and every seed is an integer literal -- so the generator state "
+                   "at a draw never depends on earlier constructions or on the caller's generator state. Bounded: bit-identity "
+                   "(sha256 of dtype/shape/bytes) of grids and all geometry getters across repeated construction, seeded random "
+                   "histories, reseeding, fresh interpreters with different PYTHONHASHSEED, and the prefix property over "
+                   "thousands of (N, M) pairs.",
+    "trusted_base": ["helper functions that draw (random_quaternions, random_sphere_points) are only reachable through seeded callers "
+                     "(checked: every call site carries the obligation)", "ALLOW-LISTED: PositionVoronoi.__init__ draws unseeded -- "
+                     "plotting-only class, not reachable from the geometry getters"],
+    "assumptions": ["determinism of Qhull/LAPACK/CPython floats across processes is exercised by the bounded stage, not proved",
+                    "index permanence, cache coherence and the idempotent filter (DESIGN 6/C08 P2-P4) are covered by the bounded stage only"],
 }
 CONFIG["C18"] = {
     "level": "exploration", "proof": False, "rtc": True, "rtc_timeout": 3000,
